@@ -8,6 +8,7 @@ CONSTANTS
   Fmts = {"bc"}
   NFiles = {2}
   Lazy = {FALSE}
+  Touches = {"lookup", "getitem"}
   Variant = "stale_ext"
 INVARIANT TypeOK
 INVARIANT Inv_C03_Nearest
